@@ -148,7 +148,11 @@ pub fn blindable_script(p: &mut Prng) -> Script {
     }
     let pk = |p: &mut Prng| p.pick(&pool().pks).serialize().to_vec();
     let mut v = Vec::new();
-    match p.below(3) {
+    match p.below(4) {
+        3 => {
+            // a data carrier with a positive amount: unusual, legal
+            return Script::new_op_return(&p.bytes(12));
+        }
         0 => {
             // <33-byte key> OP_CHECKSIG
             v.push(33);
@@ -255,6 +259,16 @@ pub fn build(spec: &CtSpec) -> Workload {
             asset_issuance: AssetIssuance::null(),
             witness: Default::default(),
         };
+        // one explicit input in six is a peg-in with a well-formed peg-in witness (amount verification must keep taking the
+        // spent asset and value from the caller's spent outputs, whatever the witness says)
+        if !conf && p.chance(1, 6) {
+            txin.is_pegin = true;
+            let wv = if p.coin() { v } else { p.u64() };
+            let mut proof = p.bytes(80);
+            let extra = p.usize_below(40);
+            proof.extend(p.bytes(extra));
+            txin.witness.pegin_witness = vec![wv.to_le_bytes().to_vec(), if p.coin() { elements::encode::serialize(&asset) } else { p.bytes(32) }, p.bytes(32), addressable_script(&mut p).to_bytes(), p.bytes(60), proof];
+        }
         let issue = spec.issuance && p.chance(1, 2);
         let reissue = !issue && spec.reissuance && p.chance(1, 2);
         if issue || reissue {
@@ -348,7 +362,9 @@ pub fn build(spec: &CtSpec) -> Workload {
             receivers.push(Some(sk));
         } else {
             let spk = if spec.unmarked_opreturn && p.coin() { Script::new_op_return(&p.bytes(8)) } else { addressable_script(&mut p) };
-            output.push(TxOut { asset: Asset::Explicit(asset), value: Value::Explicit(value), nonce: Nonce::Null, script_pubkey: spk, witness: TxOutWitness::default() });
+            // an unmarked output may carry an explicit (01-prefixed) nonce: it is not a blinding key
+            let nonce = if p.chance(1, 8) { Nonce::Explicit(p.arr32()) } else { Nonce::Null };
+            output.push(TxOut { asset: Asset::Explicit(asset), value: Value::Explicit(value), nonce, script_pubkey: spk, witness: TxOutWitness::default() });
             receivers.push(None);
         }
     }
@@ -413,6 +429,9 @@ pub enum Tamper {
     PrevoutValue { input: usize, delta: i64, pool: usize },
     PrevoutAsset { input: usize, pool: usize },
     PrevoutLen { longer: bool },
+    /// a commitment (or explicit field) replaced by the null value
+    AssetNull { out: usize },
+    ValueNull { out: usize },
 }
 
 impl Tamper {
@@ -432,6 +451,7 @@ impl Tamper {
             Tamper::IssuanceAmount { .. } => "issuance.amount",
             Tamper::PrevoutValue { .. } | Tamper::PrevoutAsset { .. } => "prevout.differs",
             Tamper::PrevoutLen { .. } => "prevout.len",
+            Tamper::AssetNull { .. } | Tamper::ValueNull { .. } => "commitment.replace",
         }
     }
     pub fn draw(p: &mut Prng) -> Tamper {
@@ -445,7 +465,9 @@ impl Tamper {
             2 => 1 + p.below(1 << 40) as i64,
             _ => -(1 + p.below(1000) as i64),
         };
-        match p.below(19) {
+        match p.below(21) {
+            19 => Tamper::AssetNull { out },
+            20 => Tamper::ValueNull { out },
             0 => Tamper::ExplicitAmount { out, delta },
             1 => Tamper::ExplicitAsset { out },
             2 => Tamper::ValueCommReplace { out, pool: pl },
@@ -710,6 +732,26 @@ pub fn apply_tamper(t: &Tamper, tx: &mut Transaction, spent: &mut Vec<TxOut>, do
                 }
                 Asset::Null => false,
             }
+        }
+        Tamper::AssetNull { out } => {
+            if tx.output.is_empty() {
+                return false;
+            }
+            let i = *out % tx.output.len();
+            // (a zero-value output on an unspendable script takes no part in the verification at all)
+            if tx.output[i].value == Value::Explicit(0) {
+                return false;
+            }
+            tx.output[i].asset = Asset::Null;
+            true
+        }
+        Tamper::ValueNull { out } => {
+            if tx.output.is_empty() {
+                return false;
+            }
+            let i = *out % tx.output.len();
+            tx.output[i].value = Value::Null;
+            true
         }
         Tamper::PrevoutLen { longer } => {
             if *longer {
@@ -1338,7 +1380,12 @@ impl World for CtWorld {
                 ctx.nontrivial = true;
                 r
             }
-            None => ctx.call("Transaction::blind", 0, || tx.blind(&mut rng, secp, &w.secrets, false)),
+            None => {
+                // with no issuance anywhere the blind_issuances flag has nothing to act on: either value must do
+                let flag = !w.tx.input.iter().any(|i| i.has_issuance()) && case.spec.seed & 1 == 1;
+                ctx.sig_n("blind_issuances_flag", flag as u64);
+                ctx.call("Transaction::blind", 0, || tx.blind(&mut rng, secp, &w.secrets, flag))
+            }
         };
         ctx.stats.add("rng.draws", rng.draws);
         ctx.stats.add("rng.bytes", rng.bytes_served);
